@@ -40,6 +40,17 @@ Definition run_case (s : sdocument) (op : string) (args : list sexp) : list stri
         end
     | _ => ["BADINPUT"]
     end
+  else if String.eqb op "validate13" then
+    match args with
+    | [d; SL (Atom _ :: codes)] =>
+        match d_document d, d_list (fun x => match x with Atom a => rule_of_code a | _ => None end) codes with
+        | Some d, Some plan =>
+            List.app (render_outcome (validate s d plan))
+                     ["UNION ok"; "CODES ok"; "MSG ok"; "LOCS ok"; "JSON ok"; "DEFAULTPLAN ok"]
+        | _, _ => ["BADINPUT"]
+        end
+    | _ => ["BADINPUT"]
+    end
   else ["BADOP"].
 
 (* line-level entry points: the driver keeps the current schema *)
